@@ -764,6 +764,12 @@ func init() {
 					strings.Contains(o.OracleFail, "beyond the furthest failing terminal") ||
 					strings.Contains(o.OracleFail, "is not the furthest failure"))
 			},
+			// D12 = D9 seen from C06: Single/Name over an Optional whose operand is a curtailed recursion fails the
+			// parse with no terminal tried at all (found by the seed sweep at seed 23 and, independently, by the proof
+			// of c06_upper_productive: Props/C06P.lean c06_d12_cfg_productive_not_enough)
+			"name-or-single-over-optional": func(c *Sexp, o Outcome) bool {
+				return hasNameOrSingleOverOptional(c) && strings.Contains(o.OracleFail, "no terminal or end-of-input was tried")
+			},
 		},
 	})
 	for id, sentence := range map[string]bool{"C02": false, "C04": true, "C06": true} {
